@@ -99,6 +99,17 @@ theorem TS.step_wf' (s : TS) (op : TSOp) (hs : s.WF') : (s.step op).1.WF' := by
   | constructFail c a =>
     simp only [TS.step]
     cases hl : lookup c s.inst <;> exact ⟨h1, h2, h3, h4⟩
+  | constructClearing c a =>
+    simp only [TS.step]
+    cases hl : lookup c s.inst with
+    | some i => exact ⟨h1, h2, h3, h4⟩
+    | none =>
+      refine ⟨by simp, by simp, by simp, ?_⟩
+      intro e he
+      simp only [List.mem_append, List.mem_singleton] at he
+      rcases he with he | rfl
+      · exact Nat.lt_succ_of_lt (h4 e he)
+      · exact Nat.lt_succ_self _
   | construct c a =>
     simp only [TS.step]
     cases hl : lookup c s.inst with
@@ -157,9 +168,11 @@ theorem TS.init_wf' : TS.WF' {} := by
 
 /-- an op that is not a clear of class `c` preserves `c`'s entry -/
 theorem TS.step_keeps_lookup (s : TS) (c i : Nat) (op : TSOp)
-    (h1 : op ≠ .clear (some c)) (h2 : op ≠ .clear none) (hl : lookup c s.inst = some i) :
+    (h1 : op ≠ .clear (some c)) (h2 : op ≠ .clear none) (h3 : ∀ c2 a, op ≠ .constructClearing c2 a)
+    (hl : lookup c s.inst = some i) :
     lookup c (s.step op).1.inst = some i := by
   cases op with
+  | constructClearing c2 a => exact absurd rfl (h3 c2 a)
   | constructFail c2 a =>
     simp only [TS.step]
     cases hl2 : lookup c2 s.inst <;> exact hl
@@ -180,7 +193,7 @@ theorem TS.step_keeps_lookup (s : TS) (c i : Nat) (op : TSOp)
       exact hl
 
 theorem TS.run_keeps_lookup (mid : List TSOp) (s : TS) (c i : Nat)
-    (hmid : ∀ op ∈ mid, op ≠ .clear (some c) ∧ op ≠ .clear none)
+    (hmid : ∀ op ∈ mid, op ≠ .clear (some c) ∧ op ≠ .clear none ∧ ∀ c2 a, op ≠ .constructClearing c2 a)
     (hl : lookup c s.inst = some i) :
     lookup c (TS.run s mid).1.inst = some i := by
   induction mid generalizing s with
@@ -190,7 +203,7 @@ theorem TS.run_keeps_lookup (mid : List TSOp) (s : TS) (c i : Nat)
     apply ih
     · intro op' h'; exact hmid op' (List.mem_cons_of_mem _ h')
     · exact TS.step_keeps_lookup s c i op (hmid op (List.mem_cons_self ..)).1
-        (hmid op (List.mem_cons_self ..)).2 hl
+        (hmid op (List.mem_cons_self ..)).2.1 (hmid op (List.mem_cons_self ..)).2.2 hl
 
 /-- a hit changes nothing -/
 theorem TS.step_construct_hit (s : TS) (c a i : Nat) (hl : lookup c s.inst = some i) :
@@ -212,6 +225,11 @@ theorem TS.step_mono (s : TS) (op : TSOp) :
   | constructFail c a =>
     simp only [TS.step]
     cases hl : lookup c s.inst <;> exact ⟨Nat.le_refl _, [], by simp, by simp⟩
+  | constructClearing c a =>
+    simp only [TS.step]
+    cases hl : lookup c s.inst with
+    | some i => exact ⟨Nat.le_refl _, [], by simp, by simp⟩
+    | none => exact ⟨Nat.le_succ _, [(s.next, c, a)], rfl, by simp⟩
   | construct c a =>
     simp only [TS.step]
     cases hl : lookup c s.inst with
